@@ -261,6 +261,15 @@ def in_subgroup(spec):
     return "m" in spec or spec.get("k") == "h"
 
 
+
+def stale_pt(x):
+    """content of output objects before the call: a fixed multiple of G2 that no generated case expects (G2 itself is
+    the expected value of [1]G2; a routine returning without writing must not pass)"""
+    if getattr(x, "_stale_pt", None) is None:
+        x._stale_pt = x.E2c.mul(977, x.G2)
+    return x._stale_pt
+
+
 def enc(x, P, rep):
     if x.K == 2:
         return pcctx.enc_point2(x, P, rep["kind"], tuple(rep["z"]), rep.get("inf", 0))
@@ -471,7 +480,7 @@ def run_law(env, cfg, case):
         def build(p):
             sp = p.new("EP2", enc(x, P, rp))
             sq = sp if alias == 3 else p.new("EP2", enc(x, Q, rq))
-            sr = p.new("EP2", enc(x, x.G2, BASICREP)) if alias in (0, 3) else (sp if alias == 1 else sq)
+            sr = p.new("EP2", enc(x, stale_pt(x), BASICREP)) if alias in (0, 3) else (sp if alias == 1 else sq)
             ss = None
             if op == "ep2_add_slp_basic":
                 ss = fp2_slot(p, x, (5, 7))
@@ -529,7 +538,7 @@ def run_law(env, cfg, case):
 
         def build(p):
             sp = p.new("EP2", enc(x, P, rp))
-            sr = sp if al else p.new("EP2", enc(x, x.G2, BASICREP))
+            sr = sp if al else p.new("EP2", enc(x, stale_pt(x), BASICREP))
             ss = None
             if op == "ep2_dbl_slp_basic":
                 ss = fp2_slot(p, x, (5, 7))
@@ -631,7 +640,7 @@ def run_mul(env, cfg, case):
 
     def build(p):
         sp = p.new("EP2", enc(x, P, case.get("rp") or BASICREP))
-        sr = sp if alias else p.new("EP2", enc(x, x.G2, BASICREP))
+        sr = sp if alias else p.new("EP2", enc(x, stale_pt(x), BASICREP))
         if op in GEN:
             sk = p.bn(k)
             p.call(opname(x, op), sr, sk)
@@ -701,7 +710,7 @@ def run_fix(env, cfg, case):
         p.call(opname(x, pre), st_, sp)
         outs = []
         for k in case["ks"]:
-            sr = p.new("EP2", enc(x, x.G2, BASICREP))
+            sr = p.new("EP2", enc(x, stale_pt(x), BASICREP))
             sk = p.bn(k)
             p.call(opname(x, fix), sr, st_, sk)
             p.dump(sr)
@@ -797,7 +806,7 @@ def run_sim(env, cfg, case):
     what = "%s[cid=%d](n=%d)" % (opname(x, op), x.cid, len(pts))
 
     def build(p):
-        sr = p.new("EP2", enc(x, x.G2, BASICREP))
+        sr = p.new("EP2", enc(x, stale_pt(x), BASICREP))
         if op in SIM2:
             s0, s1 = p.new("EP2", enc(x, pts[0], reps[0])), p.new("EP2", enc(x, pts[1], reps[1]))
             k0, k1 = p.bn(ks[0]), p.bn(ks[1])
@@ -865,7 +874,7 @@ def _frb_structural(env, cfg, x, case, P, lab):
         outs = []
         for T_ in (P, D):
             sp = p.new("EP2", enc(x, T_, BASICREP))
-            sr = p.new("EP2", enc(x, x.G2, BASICREP))
+            sr = p.new("EP2", enc(x, stale_pt(x), BASICREP))
             p.call(opname(x, op), sr, sp, i)
             p.dump(sr)
             outs.append(sr)
@@ -931,7 +940,7 @@ def run_frb(env, cfg, case):
 
     def build(p):
         sp = p.new("EP2", enc(x, P, BASICREP))
-        sr = sp if alias else p.new("EP2", enc(x, x.G2, BASICREP))
+        sr = sp if alias else p.new("EP2", enc(x, stale_pt(x), BASICREP))
         p.call(opname(x, op), sr, sp, i)
         p.dump(sr)
         return sr, sp
@@ -959,7 +968,7 @@ def heff(env, cfg, x):
         outs = []
         for P in probes:
             sp = p.new("EP2", enc(x, P, BASICREP))
-            sr = p.new("EP2", enc(x, x.G2, BASICREP))
+            sr = p.new("EP2", enc(x, stale_pt(x), BASICREP))
             p.call(opname(x, "ep2_mul_cof"), sr, sp)
             p.dump(sr)
             outs.append(sr)
@@ -1023,7 +1032,7 @@ def run_cof(env, cfg, case):
         outs = []
         for T_ in ins_pts:
             sp = p.new("EP2", enc(x, T_, BASICREP))
-            sr = sp if alias else p.new("EP2", enc(x, x.G2, BASICREP))
+            sr = sp if alias else p.new("EP2", enc(x, stale_pt(x), BASICREP))
             p.call(opname(x, "ep2_mul_cof"), sr, sp)
             p.dump(sr)
             outs.append((sr, sp))
